@@ -34,6 +34,7 @@ SPECIAL_UNITS = ["degree", "rad", "arcmin", "degC", "degF", "K", "delta_degC", "
 FOLLOW = ["sin", "cos", "tan", "add_self", "mul2", "mul_self", "sqrt_abs", "in_base", "in_base_cgs", "in_base_mks", "in_base_galactic", "in_cgs", "in_mks", "to_custom", "to_m", "to_K",
           "to_rad", "add_orig", "sub_orig", "eq_orig", "lt_orig", "sum", "mean", "units_mul", "units_pow", "str", "repr", "base_equiv", "unit_system_name", "registry_probe",
           "latex", "is_dimensionless", "has_equiv", "to_equivalent", "pickle_again", "convert_inplace", "neg", "abs", "cumsum", "dot", "concatenate", "where", "max_orig"]
+OBJECT_COPY_ROUTES = ("copy.copy", "copy.deepcopy", ".copy()", "nested-deepcopy", "unit-deepcopy", "unit-copy-deep", "unit-copy-shallow")
 PROBE = ["code_length", "kcode_length", "code_mass", "tX", "mtX", "pc", "kpc", "m", "Msun", "foo_missing", "degC", "vfzz"]
 
 
@@ -65,7 +66,8 @@ def case(draw):
     n = draw(st.integers(1, 3))
     return {"reg": regkind, "unit": unit, "vals": [draw(st.integers(-40, 40)) / 8 for _ in range(n)], "scalar": n == 1 and draw(st.booleans()),
             "dtype": draw(st.sampled_from(["float64", "float64", "int64", "float32"])), "route": draw(st.sampled_from(ROUTES)),
-            "follow": [draw(st.sampled_from(FOLLOW)) for _ in range(draw(st.integers(1, 4)))], "order": draw(st.booleans()), "name": draw(st.sampled_from([None, "dens"]))}
+            "follow": [draw(st.sampled_from(FOLLOW)) for _ in range(draw(st.integers(1, 4)))], "order": draw(st.booleans()), "name": draw(st.sampled_from([None, "dens"])),
+            "stale": draw(st.integers(0, 3)) == 0, "edit_after": draw(st.booleans())}
 
 
 def persist(obj, route, tmpdir):
@@ -235,6 +237,13 @@ def judge(c, part):
         return out
     orig = build()
     twin = build()  # same value, never persisted: what the restored object is compared with
+    if c.get("stale") and reg is not None and c["route"] in OBJECT_COPY_ROUTES:
+        # the quantity's unit outlives a re-scaling of its registry ("unit objects created before an edit keep the value they had"):
+        # an object copy keeps that meaning too
+        reg.modify("code_length", 6.0e19)
+        reg.modify("code_mass", 4.0e40)
+        Unit("code_length", registry=reg), Unit(c["unit"], registry=reg)
+        part.count("history: registry re-scaled between creation and copy")
     ctx = {"reg": c["reg"], "unit": c["unit"], "route": c["route"], "dtype": c["dtype"]}
 
     def bad(key, **kw):
@@ -314,6 +323,29 @@ def judge(c, part):
             us = ":unit-system" if (c["reg"].endswith("cgs") and step in UNIT_SYSTEM_STEPS) else ""
             bad(f"behaviour-differs:{_rkey(c['route'])}:{step}{us}", original=o1, restored=o2)
             break
+    # ---- (3) a restored object that got its own registry is a snapshot: editing the original's registry afterwards changes nothing for it
+    if reg is not None and c.get("edit_after") and kind != "array-text" and restored.units.registry is not reg and restored.units.registry.lut is not reg.lut and not out:
+        part.ev()
+        part.count("history: original registry edited after the restore")
+        rreg = restored.units.registry
+        steps = {"to-own-spelling": lambda: restored.to(str(restored.units)), "probe": lambda: probe_registry(rreg), "add-one": lambda: restored + unyt_quantity(1.0, str(restored.units), registry=rreg),
+                 "in_base": lambda: restored.in_base(), "parsed-unit-registry": lambda: Unit(c["unit"], registry=rreg).registry is rreg,
+                 "code_length": lambda: Unit("code_length", registry=rreg), "to-code": lambda: (restored / restored.units).to("dimensionless") * Unit("kcode_length", registry=rreg)}
+        before = {k: outcome(f) for k, f in steps.items()}
+        import unyt.dimensions as D_
+
+        reg.modify("code_length", 1.0e19)
+        reg.modify("code_mass", 1.0e39)
+        reg.modify("tX", 4.0)
+        reg.add("vfzz", 4.0, D_.length)
+        Unit("code_length", registry=reg), Unit("kcode_length", registry=reg), Unit(c["unit"], registry=reg)
+        for k, f in steps.items():
+            after = outcome(f)
+            if not same_outcome(before[k], after):
+                bad(f"restored-follows-later-edits-of-the-original-registry:{_rkey(c['route'])}:{k}", before=before[k], after=after)
+                break
+        if before["parsed-unit-registry"] != ("py", "True"):
+            bad(f"unit-parsed-against-restored-registry-bound-elsewhere:{_rkey(c['route'])}", got=before["parsed-unit-registry"])
     if len(part.samples) < 2:
         part.sample({"registry": c["reg"], "unit": c["unit"], "route": c["route"], "follow-up": c["follow"], "restored": repr(restored)[:80]})
     return out
@@ -337,8 +369,9 @@ def part_grid(payload):
     for route, regkind, unit in payload["cells"]:
         if regkind == "default" and ("code_" in unit or "tX" in unit):
             continue
-        for fol in (["in_base", "sin", "add_self", "registry_probe"], ["to_custom", "mul2", "unit_system_name", "pickle_again"]):
-            c = {"reg": regkind, "unit": unit, "vals": [1.5, -2.25, 3.0], "scalar": False, "dtype": "float64", "route": route, "follow": fol, "order": True, "name": None}
+        for i, fol in enumerate((["in_base", "sin", "add_self", "registry_probe"], ["to_custom", "mul2", "unit_system_name", "pickle_again"])):
+            c = {"reg": regkind, "unit": unit, "vals": [1.5, -2.25, 3.0], "scalar": False, "dtype": "float64", "route": route, "follow": fol, "order": True, "name": None,
+                 "stale": i == 1, "edit_after": True}
             for key, det in judge(c, part):
                 core.classify(known, part, key, det)
     return part
